@@ -1,2 +1,83 @@
 #![allow(warnings, clippy::all, clippy::pedantic, clippy::nursery)]
+//@ module: blob
 use super::*;
+use crate::error::verif_harness as vh;
+
+/// largest end position of a blob inside a pack: packs are flushed at <= 4076 MiB (packer MAX_SIZE)
+/// plus at most one more blob and the header, i.e. blob ends stay below 4 GiB - 256 KiB
+const MAX_END: u64 = (u32::MAX - constants::MAX_HOLESIZE) as u64;
+
+fn any_loc() -> BlobLocation {
+    let l = BlobLocation { offset: kani::any(), length: kani::any(), uncompressed_length: NonZeroU32::new(kani::any()) };
+    kani::assume(u64::from(l.offset) + u64::from(l.length) <= MAX_END);
+    l
+}
+
+//@ harness: c14_coalesce_step_covers_members
+//@ prop: C14 C18
+//@ tier: quick
+//@ timeout: 600
+//@ kernel: BlobLocations::{from_blob_location, can_coalesce, append, coalesce, length}; the slice-index arithmetic of restore_contents (bl.offset - offset, bl.offset + bl.length - offset)
+//@ bound: a read group in an arbitrary valid state (offset,length symbolic, one representative member anywhere inside it; the SmallVec member list is kept empty and members are tracked by the harness) and an arbitrary next blob location; all u32 values symbolic; one coalesce step (inductive: `append` preserves "group covers its members")
+//@ oracle: no arithmetic overflow / panic; if the step coalesces then the merged (offset,length) contains the old member and the new blob, is <= LIMIT_PACK_READ, keeps the group's start, and the slice indices restore computes for every member are in range of the bytes read; if it does not coalesce both inputs come back unchanged
+//@ assume: every blob lies inside its pack and packs end below 4 GiB - 256 KiB (packer MAX_SIZE = 4076 MiB + one blob + header); group invariant: members lie inside [offset, offset+length) (established by from_blob_location, preserved by append)
+//@ outside: the file-system side of restore (merge walk, verification of existing files, parallel writer, metadata, deletion)
+#[kani::proof]
+#[kani::unwind(4)]
+pub(crate) fn c14_coalesce_step_covers_members() {
+    // group state: one representative member m inside the group range
+    let m = any_loc();
+    let g_off: u32 = kani::any();
+    let g_len: u32 = kani::any();
+    kani::assume(u64::from(g_off) + u64::from(g_len) <= MAX_END);
+    kani::assume(m.offset >= g_off && u64::from(m.offset) + u64::from(m.length) <= u64::from(g_off) + u64::from(g_len));
+    // the member list itself is a SmallVec (append/insert on SmallVec is out of CBMC's reach: > 8 GB for a
+    // 2-element append), so members are tracked by the harness and the SmallVecs stay empty
+    let g: BlobLocations<u8> = BlobLocations { offset: g_off, length: g_len, blobs: SmallVec::new() };
+    let (go, gl) = (g.offset, g.length);
+    let b = any_loc();
+    let other: BlobLocations<u8> = BlobLocations { offset: b.offset, length: b.length, blobs: SmallVec::new() };
+    let fresh = BlobLocations::from_blob_location(b, ());
+    assert!(fresh.offset == b.offset && fresh.length == b.length);
+    std::mem::forget(fresh);
+    match g.coalesce(other) {
+        Ok(merged) => {
+            assert!(merged.offset == go);
+            assert!(merged.length <= constants::LIMIT_PACK_READ);
+            // covers the old member and the new blob, and restore's slice indices are in range
+            for bl in [m, b] {
+                let start = bl.offset - merged.offset;
+                let end = bl.offset + bl.length - merged.offset;
+                assert!(start <= end && end <= merged.length);
+            }
+            // no overlap: the new blob starts at or after the old range end, within the allowed hole
+            assert!(b.offset >= go + gl && b.offset - (go + gl) <= constants::MAX_HOLESIZE);
+            kani::cover!(b.offset > go + gl, "coalesced across a hole");
+            kani::cover!(merged.length == constants::LIMIT_PACK_READ, "merged read exactly at the limit");
+            std::mem::forget(merged);
+        }
+        Err((a, o)) => {
+            assert!(a.offset == go && a.length == gl);
+            assert!(o.offset == b.offset && o.length == b.length);
+            kani::cover!(true, "not coalesced");
+            std::mem::forget(a); std::mem::forget(o);
+        }
+    }
+}
+
+//@ harness: c14_data_length
+//@ prop: C14 C18
+//@ tier: quick
+//@ timeout: 300
+//@ kernel: BlobLocation::data_length
+//@ bound: any location with length >= 32 when uncompressed
+//@ oracle: no underflow; plaintext length = length - 32 for uncompressed entries, the recorded length otherwise
+//@ assume: an uncompressed index entry has length >= 32 (every stored blob carries 16 bytes nonce + 16 bytes MAC; index files are authenticated, so entries are ones a packer wrote)
+#[kani::proof]
+pub(crate) fn c14_data_length() {
+    let l = any_loc();
+    kani::assume(l.uncompressed_length.is_some() || l.length >= 32);
+    let d = l.data_length();
+    match l.uncompressed_length { None => assert!(d == l.length - 32), Some(u) => assert!(d == u.get()) }
+    kani::cover!(l.uncompressed_length.is_none() && l.length == 32, "empty plaintext edge");
+}
